@@ -112,7 +112,11 @@ def astar[S](
                 counter += 1
                 evaluations += 1
 
-    if iterations >= max_iter:
+    # The search is unfinished only while a node still waits to be expanded: entries of closed nodes are leftovers, and
+    # a frontier that ran empty on the last allowed iteration has settled the question
+    while heap and heap[0][-1] in closed:
+        heappop(heap)
+    if heap:
         return Result(None, float("inf"), iterations, evaluations, Status.MAX_ITER)
     return Result(None, float("inf"), iterations, evaluations, Status.INFEASIBLE)
 
